@@ -117,6 +117,21 @@ CHECKS = {
               'store compared with a timestamp-keyed model after every operation; leading-spacing validation of research.backtest.'),
         note='exhaustive only for intervals <= 10 minutes',
         ref='DESIGN.md section 3 C20'),
+    'C17': dict(
+        technique='direct oracle in exact rational arithmetic on generated inputs + acceptance monitor through the real Order/exchange objects',
+        text=('size_to_qty / risk_to_qty / sum_floats / subtract_floats / round_qty_for_live_mode / limit_stop_loss are evaluated on '
+              'hundreds of thousands of generated inputs (log-uniform, decimal grids, near-integer quotients) and judged in exact '
+              'rationals; sized orders are submitted to a fresh spot / 1x futures account holding exactly the capital; timeframe tables, '
+              'max_timeframe on all subsets up to size 4 and anchor_timeframe are compared with the lengths parsed from the names.'),
+        note='relative slack 1e-12 for decimal literals; acceptance judged without slack (one known finding, fee 0)',
+        ref='DESIGN.md section 3 C17'),
+    'C19': dict(
+        technique='exhaustive direct oracle on the real decoder + trace monitor of strategy.hp inside real backtests',
+        text=('dna_to_hp on every letter of the 80-letter alphabet x gene positions 0..3 x hundreds of declarations (range, type, '
+              'position independence, monotonicity, end points); backtest sessions for all 8 combinations of defaults / explicit / '
+              'dna() on one and two routes record the hp each strategy sees in before().'),
+        note='Part 2 compares with the real decoder output (checked in Part 1)',
+        ref='DESIGN.md section 3 C19'),
 }
 
 NOT_YET = 'check under construction in this round (see DESIGN.md section 3); not claimed until it runs clean on the unchanged tree'
